@@ -59,6 +59,7 @@ OBLIGATIONS = [
         "RcTest.failsOnNonzero_sound",
         "C13_binding_full",
         "C13_binding_missing",
+        "C13_binding_no_nothing",
         "C13_binding_regression_D9",
         "CheckRun.failure",
         "CheckRun.success",
